@@ -33,7 +33,7 @@ func (c16) Rule() string {
 		"Oracle (closed-form layout model): NewOrigin(p).String() == model block; len == toOriginLength(n) == 10*ceil(n/60)+ceil(n/10)+n; fromOriginLength(len) == n; Len() == n before and after Bytes(); Bytes() == p; " +
 		"an undecoded Origin over the model block has Len() == n and Bytes() == p; the fast validator accepts the LF block, the slow parser accepts the LF block and its CRLF twin and the Origin it yields decodes to p; " +
 		"a hand-written minimal GenBank record with that ORIGIN read through seqio.NewAutoScanner gives Len == n and Bytes == p for LF and CRLF; malformed twins: both paths must reject and nothing may panic (the scanner is only watched for panics on them); a twin whose declared length ends at a line end with whole surplus lines after it (an intact block for the block readers) is read as a record with LF and with CRLF line ends: both must be rejected, or both read with the same residues. " +
-		"index widths: NewOrigin of 10^(w-1)+81 residues for w = 5..9 must equal the model block byte for byte, report Len() == n and decode to the residues. streams: 2..4 hand-written records (LF: fast path, CRLF: slow path) scanned to the end first, then every record decoded: Len() and Bytes() of each must be its own. non-trivial: at least one residue (n >= 1) or a length-function range; distinct: canonical case text (kind, n, alphabet, sub-seed, malformation parameters). After decoding, the scanned record is derived through WithFeatures / WithTopology / WithInfo: Len, residues and printed block unchanged; a sixth malformed twin has an empty line before line k."
+		"index widths: NewOrigin of 10^(w-1)+81 residues for w = 5..9 must equal the model block byte for byte, report Len() == n and decode to the residues. streams: 2..4 hand-written records (LF: fast path, CRLF: slow path) scanned to the end first, then every record decoded: Len() and Bytes() of each must be its own. non-trivial: at least one residue (n >= 1) or a length-function range; distinct: canonical case text (kind, n, alphabet, sub-seed, malformation parameters). After decoding, the scanned record is derived through WithFeatures / WithTopology / WithInfo: Len, residues and printed block unchanged; a sixth malformed twin has an empty line before line k. Records that name a CONTIG and carry residues as well are written and read back."
 }
 
 func (c16) Assumptions() []string {
@@ -79,7 +79,7 @@ func (c16) RequiredBuckets(tier string) []string {
 	for _, b := range c16BadBytes {
 		out = append(out, fmt.Sprintf("badbyte|%d", b))
 	}
-	out = append(out, "sep|first-of-line", "sep|inner", "record|contig-only", "record|long", "idxw-large|5", "idxw-large|6", "idxw-large|7", "idxw-large|8", "idxw-large|9", "stream:collected-then-decoded", "stream:slow-path", "stream:fast-path", "malformed:intact-declared-block-then-surplus-lines")
+	out = append(out, "sep|first-of-line", "sep|inner", "record|contig-only", "record|contig-and-origin", "record|long", "idxw-large|5", "idxw-large|6", "idxw-large|7", "idxw-large|8", "idxw-large|9", "stream:collected-then-decoded", "stream:slow-path", "stream:fast-path", "malformed:intact-declared-block-then-surplus-lines")
 	for b := 33; b <= 126; b++ {
 		out = append(out, fmt.Sprintf("res|%d", b))
 	}
@@ -998,6 +998,46 @@ func (m c16) Run(c *fw.Ctx) {
 			if ln != nb {
 				c.Violate("contig-only:len-differs-from-decoded-length", enc, fmt.Sprintf("Len() == len(Bytes()) == %d", nb), fmt.Sprintf("Len() = %d", ln))
 			}
+		}
+	}
+
+	// D2. a record that names a CONTIG and carries residues as well: written and
+	// read back, the block is there and holds the residues.
+	for _, n := range []int{1, 9, 59, 60, 61, 133, 600} {
+		if !c.NextShared() {
+			continue
+		}
+		p := c16Residues(n, "dna", int64(n))
+		enc := fmt.Sprintf("record with a CONTIG line and %d residues, written and read back", n)
+		c.Begin(enc)
+		c.Count(enc, true)
+		c.Bucket("record|contig-and-origin")
+		gb := seqio.GenBank{Fields: seqio.GenBankFields{LocusName: "BOTH", Molecule: gts.DNA, Topology: gts.Linear, Division: "CON",
+			Date: seqio.Date{Year: 2020, Month: 1, Day: 1}, Definition: "contig and residues.", Accession: "BOTH", Version: "BOTH.1",
+			Contig: seqio.Contig{Accession: "U00096.3", Region: gts.Segment{0, n}}}, Origin: seqio.NewOrigin(append([]byte(nil), p...))}
+		var text string
+		var ln, cnt int
+		var got []byte
+		var serr error
+		pn, val, site, stack := fw.Guard(func() {
+			text = gb.String()
+			s := seqio.NewAutoScanner(strings.NewReader(text))
+			for s.Scan() && cnt < 3 {
+				cnt++
+				ln = gts.Len(s.Value())
+				got = append([]byte(nil), s.Value().Bytes()...)
+			}
+			serr = s.Err()
+		})
+		switch {
+		case pn:
+			c.ViolateX("contig-and-origin:"+panicClass(site, val), enc, "no panic", fmt.Sprint(val), stack, nil)
+		case !strings.Contains(text, "\n"+string(model.OriginBlock(p))+"//"):
+			c.Violate("contig-and-origin:block-not-written", enc, "the ORIGIN block of the residues", clipS(text, 600))
+		case serr != nil || cnt != 1:
+			c.Violate("contig-and-origin:not-read", enc, "1 record", fmt.Sprintf("%d records, err=%v", cnt, serr))
+		case ln != n || !bytes.Equal(got, p):
+			c.Violate("contig-and-origin:residues-lost", enc, fmt.Sprintf("Len %d and the residues", n), fmt.Sprintf("Len %d, %d residues", ln, len(got)))
 		}
 	}
 
